@@ -43,8 +43,12 @@ def f1(tier):
                     for b in trip:
                         for c in trip:
                             stmts.append(('tri', None, [P(B(o2, B(o1, V('x'), V('y')), V('z'))), P(B(o1, V('x'), B(o2, V('y'), V('z'))))], (a, b, c)))
+        # shifts: every literal (negative ones too) by every count of a boundary set, once on literals and once through parameters
+        for a in (lits if it == 'MI' else []):      # the count is a MachineInteger: one numeric domain per scope
+            for n in (-62, -33, -32, -31, -8, -1, 0, 1, 8, 31, 32, 33, 62):
+                stmts.append(('pair', 'shift', [P(('shift', L(a), L(n))), P(('call', 'hs', [L(a), L(n)]))]))
         # build cases: helper functions + groups of statements that are in the subset
-        helpers = []
+        helpers = [('fn', 'hs', [('p', 'I'), ('q', 'I')], 'I', [('value', ('shift', V('p'), V('q')))])] if it == 'MI' else []
         for i, op in enumerate(AOPS + COPS):
             helpers.append(('fn', 'h%d' % i, [('p', 'I'), ('q', 'I')], 'I' if op in AOPS else 'Bool', [('value', B(op, V('p'), V('q')))]))
         cur = []
